@@ -39,7 +39,7 @@ m = {
     "engines": [{"name": e, "path": e + "/", "serves_properties": [p for p, r in REGISTRY.items() if e in (r["engine"] if isinstance(r["engine"], list) else [r["engine"]])],
                  "kind_free_text": "deterministic simulation engine (Go test binary driven by ./check; rapid is the sole choice source; plan+tape replay files)"} for e in ENGINES],
     "checks": [],
-    "notes": "Technique family: deterministic simulation with fault injection. See DESIGN.md. Exit 2 of a check = build/watchdog/harness trouble, never a violation.",
+    "notes": "Technique family: deterministic simulation with fault injection. See DESIGN.md. Exit 2 of a check = build/watchdog/harness trouble, never a violation. third_party/dbft is a copy of github.com/nspcc-dev/dbft v0.4.0 (the version /repo pins) with one loop made order-deterministic (README.verif there); everything from /repo is built from its current working tree.",
     "not_applicable": [],
 }
 for p in ALL:
@@ -51,7 +51,7 @@ for p in ALL:
             "thorough_cmd": "./check %s --tier thorough" % p,
             "evidence_file": "evidence/%s.json" % p,
             "replay_cmd_template": "./check %s --replay {path}" % p,
-            "engine": "+".join(r["engine"]) if isinstance(r["engine"], list) else r["engine"],
+            "engine": "+".join(dict.fromkeys(r["engine"])) if isinstance(r["engine"], list) else r["engine"],
             "level_claimed": {"category": r["level"], "text": r["level_text"], "design_ref": r["design_ref"]},
             "level_note": r["level_note"],
             "technique": r["technique"],
